@@ -8,6 +8,23 @@ from ..expression import ast as sugar
 from . import ast as desugar
 
 
+def every_term_has_index(self: sugar.Expression, index: str) -> bool:
+    """Whether every additive term of the expression mentions the index.
+
+    A contraction can only be hoisted above a sum when every term under it mentions the contracted
+    index; otherwise the terms without the index would be summed once per value of the index.
+    """
+    match self:
+        case sugar.Tensor():
+            return index in self.indexes
+        case sugar.Add() | sugar.Subtract():
+            return every_term_has_index(self.left, index) and every_term_has_index(self.right, index)
+        case sugar.Multiply():
+            return every_term_has_index(self.left, index) or every_term_has_index(self.right, index)
+        case _:
+            return False
+
+
 @singledispatch
 def desugar_expression(
     self: sugar.Expression, contract_indexes: set[str], ids: Iterator[int]
@@ -46,7 +63,11 @@ def desugar_add(
     left_indexes = set(self.left.index_participants().keys()).intersection(contract_indexes)
     right_indexes = set(self.right.index_participants().keys()).intersection(contract_indexes)
 
-    intersection_indexes = left_indexes.intersection(right_indexes)
+    intersection_indexes = {
+        index
+        for index in left_indexes.intersection(right_indexes)
+        if every_term_has_index(self.left, index) and every_term_has_index(self.right, index)
+    }
 
     output = desugar.Add(
         desugar_expression(self.left, left_indexes - intersection_indexes, ids),
@@ -66,7 +87,11 @@ def desugar_subtract(
     left_indexes = set(self.left.index_participants().keys()).intersection(contract_indexes)
     right_indexes = set(self.right.index_participants().keys()).intersection(contract_indexes)
 
-    intersection_indexes = left_indexes.intersection(right_indexes)
+    intersection_indexes = {
+        index
+        for index in left_indexes.intersection(right_indexes)
+        if every_term_has_index(self.left, index) and every_term_has_index(self.right, index)
+    }
 
     output = desugar.Add(
         desugar_expression(self.left, left_indexes - intersection_indexes, ids),
